@@ -34,6 +34,25 @@ CLANG = ['clang++-14', '-std=c++20', '-S', '-emit-llvm', '-O0', '-fno-discard-va
 CACHE_DIR = os.environ.get('VERIF_CACHE_DIR', '/var/tmp/verif_cache')
 try: CBMC_VERSION = subprocess.run(['cbmc', '--version'], capture_output=True, text=True).stdout.strip()
 except Exception: CBMC_VERSION = '?'
+def run_split(cb, job):
+    """same obligations, several back-end calls: each `*.assertion.N` property alone (formula sliced for it), every instrumented check
+    (pointer / bounds / unwinding) together in one call; outputs are concatenated, so parsing and vacuity checks see the full set"""
+    from concurrent.futures import ThreadPoolExecutor
+    t0 = time.time()
+    rc, so, se, dt = sh([x for x in cb if x != '--slice-formula'] + ['--show-properties'], timeout=600, mem_gb=job.mem_gb)
+    ids = re.findall(r'^Property ([^\s:]+):', so, flags=re.M)
+    if rc != 0 or not ids: return rc if rc else 6, so, 'show-properties failed: ' + se[-2000:], time.time() - t0
+    single = [i for i in ids if re.search(r'\.assertion\.\d+$', i)]; rest = [i for i in ids if i not in set(single)]
+    groups = [[i] for i in single] + ([rest] if rest else [])
+    def one(g):
+        cmd = list(cb)
+        for i in g: cmd += ['--property', i]
+        return sh(cmd, timeout=job.timeout, mem_gb=job.mem_gb)
+    with ThreadPoolExecutor(max_workers=job.split) as ex: res = list(ex.map(one, groups))
+    bad = [r for r in res if r[0] not in (0, 10)]
+    if bad: return bad[0][0], '\n'.join(r[1] for r in res), bad[0][2], time.time() - t0
+    return (10 if any(r[0] == 10 for r in res) else 0), '\n'.join(r[1] for r in res), '', time.time() - t0
+
 def heavy_slot(mem_gb, n_slots=int(os.environ.get('VERIF_HEAVY_SLOTS', '3'))):
     """jobs allowed 16 GB or more run at most n_slots at a time: take one of n_slots lock files (flock, released when the handle is closed)"""
     if not mem_gb or mem_gb < 16: return None
@@ -65,7 +84,7 @@ class Job:
     """One proof job = one harness file discharged against the extraction of one unit in one configuration."""
     def __init__(s, id, props, unit, harness, roots=None, stubs=None, entry='harness', cfgs=(BASE,), thorough_cfgs=None,
                  dfcc=None, unwind=None, flags=(), timeout=600, mem_gb=12, tier='quick', defines=(), floor=1,
-                 under_contract=(), trusted=(), bounded=None, replay=None, objbits=None, solver=None, variants=None, cut=(), unwindset=None, unwindset_raw=None, memsafe=True, irfacts=None):
+                 under_contract=(), trusted=(), bounded=None, replay=None, objbits=None, solver=None, variants=None, cut=(), unwindset=None, unwindset_raw=None, memsafe=True, irfacts=None, split=0):
         s.id = id; s.props = list(props); s.unit = unit; s.harness = harness
         s.roots = collections.OrderedDict(roots or {}); s.stubs = collections.OrderedDict(stubs or {})
         s.entry = entry; s.cfgs = list(cfgs); s.thorough_cfgs = list(thorough_cfgs) if thorough_cfgs else None
@@ -76,6 +95,7 @@ class Job:
         s.trusted = list(trusted); s.bounded = bounded; s.replay = replay; s.objbits = objbits; s.solver = solver
         s.unwindset = dict(unwindset or {})   # {ALIAS: bound}: tighter bound for every loop of that extracted function
         s.unwindset_raw = dict(unwindset_raw or {})   # {'c_function.loopnumber': bound} for harness/spec loops
+        s.split = split          # > 0: discharge every user assertion in its own (sliced) back-end call, `split` calls at a time; all other checks in one call
         s.irfacts = irfacts      # supporting static facts read off the IR: [(function regex, assertion text that must be checked in it)]
         s.memsafe = memsafe      # False: functional obligations only (no --pointer-check/--bounds-check instrumentation of every access)
         s.cut = list(cut)        # loops closed by an invariant at the natural-loop head: 'ALIAS/label'
@@ -246,7 +266,7 @@ def run_job(job, cfg, scratch, keep=False, variant=None):
         if not os.environ.get('VERIF_NO_CACHE'):
             rcp, pp, sep, _ = sh(['gcc', '-E', '-P', '-w'] + defs + inc + [os.path.join(VERIF, job.harness)], timeout=300)
             if rcp == 0:
-                ck = hashlib.sha256(('\0'.join([pp, r.cmd, repr(job.dfcc), job.entry, CBMC_VERSION])).encode()).hexdigest()
+                ck = hashlib.sha256(('\0'.join([pp, r.cmd, repr(job.dfcc), job.entry, CBMC_VERSION] + (['split'] if job.split else []))).encode()).hexdigest()
                 cf = os.path.join(CACHE_DIR, ck + '.json')
                 if os.path.exists(cf):
                     try:
@@ -254,7 +274,7 @@ def run_job(job, cfg, scratch, keep=False, variant=None):
                     except Exception: r.cached = False
         if not r.cached:
             slot = heavy_slot(job.mem_gb)       # machine-wide limit on concurrently running memory-hungry back-end calls (also across invocations)
-            try: rc, so, se, dt = sh(cb, timeout=job.timeout, mem_gb=job.mem_gb)
+            try: rc, so, se, dt = run_split(cb, job) if job.split else sh(cb, timeout=job.timeout, mem_gb=job.mem_gb)
             finally:
                 if slot is not None: slot.close()
             if ck and rc in (0, 10):
